@@ -210,6 +210,20 @@ def zaddCmd (ps : List (Option CScore × Bytes)) (z : ZSet) : ZSet × Bool :=
   | some vs => (zaddAll vs z, true)
   | none => (z, false)
 
+def zremAll (ms : List Bytes) (z : ZSet) : ZSet := ms.foldl (fun z m => zrem m z) z
+
+/-- Prescribed argument validation: only WITHSCORES may follow the bounds; a NaN bound is not a float. -/
+def rangeOption (opt : Option Bool) : Option Bool :=
+  match opt with
+  | none => some false
+  | some true => some true
+  | some false => none
+
+def scoreBounds (lo hi : CScore) : Option (Score × Score) :=
+  match lo, hi with
+  | .num l, .num h => some (l, h)
+  | _, _ => none
+
 /-- ZINCRBY as a command: refused (nothing changes) when the increment or the sum is NaN. -/
 def zincrbyCmd (sum : CScore) (m : Bytes) (z : ZSet) : ZSet × Option Score :=
   match sum with
@@ -479,6 +493,86 @@ def zpopLoop (fixed max : Bool) : Nat → ZKey → List CEntry → ZKey × List 
     match zrange fixed (if max then -1 else 0) (if max then -1 else 0) false k with
     | [] => (k, acc)
     | e :: _ => let r := zrem e.2 k; zpopLoop fixed max n r.1 (if r.2 then acc ++ [e] else acc)
+
+/-! ### One command = one storage call (since db4c992: `zadd_many`, `zrem_many`, `zpop`)
+
+  Every storage call reaches the shard once (`get_shard`: one deadline test, at its start) and holds the
+  shard's write lock until it returns.  So the only points at which the key's deadline can take effect, or
+  at which another reader (the BGSAVE thread's copy, another connection) can see the key, lie BETWEEN two
+  storage calls.  The functions below make the calls of one command explicit. -/
+
+/-- `StorageEngine::zadd_many`: every (validated) pair applied under one lock; returns the number of new members. -/
+def zaddMany : List Nat → List (Score × Bytes) → ZKey → Nat → ZKey × Nat
+  | _, [], k, n => (k, n)
+  | hs, (s, m) :: vs, k, n =>
+    let r := zadd (hs.headD 0) m (.num s) k
+    zaddMany hs.tail vs r.1 (if r.2 then n + 1 else n)
+
+/-- The loop the handler was before db4c992: pair `i` is storage call `i`; `deadAt = some i` = the key's
+    deadline passes just before call `i`, whose `get_shard` deletes the key.  The last component collects the
+    states a reader can see between the calls of this one command. -/
+def zaddPerCall : Nat → List Nat → List (Score × Bytes) → Option Nat → ZKey → Nat → List ZKey → ZKey × Nat × List ZKey
+  | _, _, [], _, k, n, obs => (k, n, obs)
+  | i, hs, (s, m) :: vs, d, k, n, obs =>
+    let k0 := if d = some i then none else k
+    let r := zadd (hs.headD 0) m (.num s) k0
+    zaddPerCall (i + 1) hs.tail vs d r.1 (if r.2 then n + 1 else n) (if vs.isEmpty then obs else obs ++ [r.1])
+
+/-- One accepted `ZADD k pairs` under a schedule of the environment: final key, reply, and the intermediate
+    states observable by others.  `oneCall = true` is the tree since db4c992 (the whole command is call 0). -/
+def zaddSched (oneCall : Bool) (hs : List Nat) (vs : List (Score × Bytes)) (deadAt : Option Nat) (k : ZKey) :
+    ZKey × Nat × List ZKey :=
+  if oneCall then
+    let r := zaddMany hs vs (if deadAt = some 0 then none else k) 0
+    (r.1, r.2, [])
+  else zaddPerCall 0 hs vs deadAt k 0 []
+
+/-- `StorageEngine::zrem_many`: members removed one after the other under one lock; the loop ends when the
+    key has gone (unobservable: removing from a missing key removes nothing). -/
+def zremMany : List Bytes → ZKey → Nat → ZKey × Nat
+  | [], k, n => (k, n)
+  | m :: ms, k, n =>
+    match k with
+    | none => (none, n)
+    | some _ => let r := zrem m k; zremMany ms r.1 (if r.2 then n + 1 else n)
+
+/-- One iteration of `StorageEngine::zpop`: the node of rank 0 / `len-1` (`range_by_rank(rank, rank)`), removed
+    by member; the key is deleted when the list is empty afterwards. -/
+def zpopStep (max : Bool) (k : ZKey) : Option (CEntry × ZKey) :=
+  match k with
+  | none => none
+  | some sl =>
+    if sl.length == 0 then none else
+    match (rangeByRank (if max then sl.length - 1 else 0) (if max then sl.length - 1 else 0) sl).head? with
+    | none => none
+    | some e => let r := remove e.2 sl; some (e, if r.1.length == 0 then none else some r.1)
+
+/-- `StorageEngine::zpop(key, count, min)`: up to `count` iterations under one lock. -/
+def zpopMany (max : Bool) : Nat → ZKey → List CEntry → ZKey × List CEntry
+  | 0, k, acc => (k, acc)
+  | n + 1, k, acc =>
+    match zpopStep max k with
+    | none => (k, acc)
+    | some (e, k') => zpopMany max n k' (acc ++ [e])
+
+/-! ### Argument validation of the range commands and the shape of an empty pop reply (handlers) -/
+
+/-- The optional fifth argument of ZRANGE / ZREVRANGE / ZRANGEBYSCORE / ZREVRANGEBYSCORE (`isWithscores` = it
+    is `WITHSCORES`, case-insensitively): `some withscores` or `none` = syntax error.
+    As it is (`fixed = false`) anything else is dropped silently and the command answers as the plain form. -/
+def rangeOption (fixed : Bool) (opt : Option Bool) : Option Bool :=
+  match opt with
+  | none => some false
+  | some true => some true
+  | some false => if fixed then none else some false
+
+/-- Score bounds of ZRANGEBYSCORE / ZREVRANGEBYSCORE / ZCOUNT after `parse::<f64>()`: `fixed = true` refuses NaN
+    ("min or max is not a float"); as it is NaN goes into `range_by_score` (`rawLt` / `rawLe`). -/
+def scoreBounds (fixed : Bool) (lo hi : CScore) : Option (CScore × CScore) :=
+  if fixed && (decide (lo = .nan) || decide (hi = .nan)) then none else some (lo, hi)
+
+/-- ZPOPMIN / ZPOPMAX reply when nothing was popped: `true` = null array `*-1` (as it is), `false` = empty array. -/
+def zpopEmptyIsNull (fixed : Bool) : Bool := !fixed
 
 def applyCmd (fixed : Bool) (k : ZKey) : Cmd → ZKey
   | .zadd h m s => (zadd h m (.num s) k).1
